@@ -1,5 +1,6 @@
 """Contracts: fast_ticc.graphical_lasso  (C03 floor/logdet, C12 task set-up, C14 gather by index, C20, C19)"""
 from pyvc.spec import contract, specfn, classschema
+from contracts.c_model_state import MEMBERS_TRANSFER, SQUARE_UNIQUE
 
 GL = 'fast_ticc.graphical_lasso.'
 
@@ -65,6 +66,9 @@ contract(GL + '_update_cluster_covariances', props=['C03', 'C05', 'C13', 'C14', 
                   ("train-inverse-is-the-floored-reinflated-result", "forall(lambda i, j: implies(0 <= i and i < TH.shape[0] and 0 <= j and j < TH.shape[0], "
                    "TH[i, j] == floored(admm_result[tri_rank(imin(i, j), imax(i, j), TH.shape[0])], model.arguments.min_meaningful_covariance)))"),
                   ("log-determinant-is-finite-and-correct", "result.log_determinant == logdet(TH)"),
+                  ("precision-is-spd-square-and-sized-by-the-result", "is_spd(TH) and TH.shape[0] == TH.shape[1] and "
+                   "2*admm_result.shape[0] == TH.shape[0]*(TH.shape[0] + 1) and TH.shape[0] >= 0"),
+                  ("membership-list-is-a-fresh-copy", "fresh(result._member_points) and not isnone(result._member_points)"),
                   ("statistics-and-membership-carried-over", "same(result.empirical_covariance, cluster.empirical_covariance) and "
                    "same(result.stacked_data_mean, cluster.stacked_data_mean) and len(result._member_points) == len(cluster._member_points) and "
                    "implies(ascending(cluster._member_points), eqcontent(result._member_points, cluster._member_points))"),
@@ -78,14 +82,15 @@ contract(GL + '_retrieve_optimization_results', props=['C14', 'C20', 'C13', 'C03
                    "not isnone(optimization_tasks[k]) and optimization_tasks[k].fn_is_admm)",
                    # what the tasks were created with (established by optimize_markov_random_fields)
                    "forall(0, " + _K + ", lambda k: optimization_tasks[k].rho > 0 and optimization_tasks[k].a2 >= 1 and optimization_tasks[k].a3 >= 1 and "
-                   "optimization_tasks[k].a2 * optimization_tasks[k].a3 < 67108864 and optimization_tasks[k].a1 >= 0 and "
-                   "not isnone(optimization_tasks[k].a0) and "
-                   "optimization_tasks[k].a0.shape[0] == optimization_tasks[k].a2 * optimization_tasks[k].a3 and "
+                   "optimization_tasks[k].a1 >= 0 and not isnone(optimization_tasks[k].a0))",
+                   "forall(0, " + _K + ", lambda k: optimization_tasks[k].a2 * optimization_tasks[k].a3 < 67108864)",
+                   "forall(0, " + _K + ", lambda k: optimization_tasks[k].a0.shape[0] == optimization_tasks[k].a2 * optimization_tasks[k].a3 and "
                    "optimization_tasks[k].a0.shape[1] == optimization_tasks[k].a2 * optimization_tasks[k].a3)",
                    "forall(0, " + _K + ", lambda k: forall(lambda x_e: spd_compressed_task(optimization_tasks[k], x_e)))"],
          # the worker's exception propagates: raised iff some task failed (no handler anywhere on the path)
          raises={'WorkerError': "exists(0, len(optimization_tasks), lambda k: optimization_tasks[k].failed)"},
-         ghost={'kind:updated_clusters': 'list[obj:ClusterParameters]'},
+         axioms=[("triangular-numbers-determine-n", SQUARE_UNIQUE)],
+         ghost={'kind:updated_clusters': 'list[obj:ClusterParameters]', 'cumulative_posts': True},
          ensures=["fresh(result)", "fresh(result.clusters)", "len(result.clusters) == " + _K,
                   ("no-result-after-a-worker-failure", "not _any_task_failed"),
                   # gather BY INDEX: cluster k is built from task k and from cluster k only (no completion order, no pool size)
@@ -97,8 +102,30 @@ contract(GL + '_retrieve_optimization_results', props=['C14', 'C20', 'C13', 'C03
                    "floored(task_theta(optimization_tasks[k])[tri_rank(imin(i, j), imax(i, j), result.clusters[k].train_inverse.shape[0])], "
                    "model.arguments.min_meaningful_covariance))))"),
                   "same(result._point_labels, model._point_labels) and same(result.arguments, model.arguments)",
+                  ("precisions-are-spd-and-sized-NW", "forall(0, " + _K + ", lambda k: is_spd(result.clusters[k].train_inverse) and "
+                   "not isnone(result.clusters[k].computed_covariance) and not isnone(result.clusters[k].train_inverse) and "
+                   "result.clusters[k].train_inverse.shape[0] == optimization_tasks[k].a2 * optimization_tasks[k].a3 and "
+                   "result.clusters[k].train_inverse.shape[1] == optimization_tasks[k].a2 * optimization_tasks[k].a3)"),
+                  ("membership-carried-over", "forall(0, " + _K + ", lambda k: len(result.clusters[k]._member_points) == len(model.clusters[k]._member_points) and "
+                   "implies(ascending(model.clusters[k]._member_points), eqcontent(result.clusters[k]._member_points, model.clusters[k]._member_points)))"),
+                  ("clusters-pairwise-distinct", "distinct_clusters(result)"),
+                  ("correct-membership-stays-correct", "implies(not isnone(model._point_labels), forall(0, " + _K + ", lambda k: "
+                   "implies(members_ok(model.clusters[k]._member_points, model._point_labels, k), "
+                   "members_ok(result.clusters[k]._member_points, model._point_labels, k))))"),
                   "unchanged(model, model.clusters)"],
          loops={1: dict(inv=["len(updated_clusters) == _k", "fresh(updated_clusters)", "not _any_task_failed",
+                             "forall(0, _k, lambda k: allocated(updated_clusters[k]) and allocated(updated_clusters[k].train_inverse) and "
+                             "allocated(updated_clusters[k].computed_covariance) and allocated(updated_clusters[k]._member_points) and "
+                             "not same(updated_clusters[k]._member_points, updated_clusters))",
+                             "forall(0, _k, lambda k: is_spd(updated_clusters[k].train_inverse))",
+                             "forall(0, _k, lambda k: not isnone(updated_clusters[k].computed_covariance) and not isnone(updated_clusters[k].train_inverse))",
+                             "forall(0, _k, lambda k: updated_clusters[k].train_inverse.shape[0] == optimization_tasks[k].a2 * optimization_tasks[k].a3 and "
+                             "updated_clusters[k].train_inverse.shape[1] == optimization_tasks[k].a2 * optimization_tasks[k].a3)",
+                             "forall(0, _k, lambda k: len(updated_clusters[k]._member_points) == len(model.clusters[k]._member_points) and "
+                             "implies(ascending(model.clusters[k]._member_points), eqcontent(updated_clusters[k]._member_points, model.clusters[k]._member_points)))",
+                             "forall(lambda k1, k2: implies(0 <= k1 and k1 < k2 and k2 < _k, not same(updated_clusters[k1], updated_clusters[k2])))",
+                             "implies(not isnone(model._point_labels), forall(0, _k, lambda k: implies(members_ok(model.clusters[k]._member_points, model._point_labels, k), "
+                             "members_ok(updated_clusters[k]._member_points, model._point_labels, k))))",
                              "forall(0, _k, lambda k: not optimization_tasks[k].failed)",
                              "forall(0, _k, lambda k: fresh(updated_clusters[k]) and "
                              "same(updated_clusters[k].empirical_covariance, model.clusters[k].empirical_covariance) and "
@@ -107,6 +134,17 @@ contract(GL + '_retrieve_optimization_results', props=['C14', 'C20', 'C13', 'C03
                              "j < updated_clusters[k].train_inverse.shape[0], updated_clusters[k].train_inverse[i, j] == "
                              "floored(task_theta(optimization_tasks[k])[tri_rank(imin(i, j), imax(i, j), updated_clusters[k].train_inverse.shape[0])], "
                              "model.arguments.min_meaningful_covariance)))"],
+                        lemmas_end=["implies(not isnone(model._point_labels) and members_ok(model.clusters[_k]._member_points, model._point_labels, _k), "
+                                    "eqcontent(updated_clusters[_k]._member_points, model.clusters[_k]._member_points))",
+                                    "implies(not isnone(model._point_labels) and members_ok(model.clusters[_k]._member_points, model._point_labels, _k), "
+                                    "members_ok(updated_clusters[_k]._member_points, model._point_labels, _k))",
+                                    "2 * admm_result.theta.shape[0] == optimization_tasks[_k].a2 * optimization_tasks[_k].a3 * (optimization_tasks[_k].a2 * optimization_tasks[_k].a3 + 1)",
+                                    "2 * admm_result.theta.shape[0] == updated_clusters[_k].train_inverse.shape[0] * (updated_clusters[_k].train_inverse.shape[0] + 1)",
+                                    "implies(updated_clusters[_k].train_inverse.shape[0] >= 0 and optimization_tasks[_k].a2 * optimization_tasks[_k].a3 >= 0 and "
+                                    "updated_clusters[_k].train_inverse.shape[0] * (updated_clusters[_k].train_inverse.shape[0] + 1) == "
+                                    "optimization_tasks[_k].a2 * optimization_tasks[_k].a3 * (optimization_tasks[_k].a2 * optimization_tasks[_k].a3 + 1), "
+                                    "updated_clusters[_k].train_inverse.shape[0] == optimization_tasks[_k].a2 * optimization_tasks[_k].a3)",
+                                    "updated_clusters[_k].train_inverse.shape[0] == optimization_tasks[_k].a2 * optimization_tasks[_k].a3"],
                         modifies=['updated_clusters'])})
 
 contract(GL + 'optimize_markov_random_fields', props=['C14', 'C20', 'C13', 'C12', 'C09', 'C19'],
@@ -121,7 +159,8 @@ contract(GL + 'optimize_markov_random_fields', props=['C14', 'C20', 'C13', 'C12'
                    "model.clusters[k].empirical_covariance.shape[1] == stacked_training_data.shape[1])",
                    "forall(lambda t, x_e: spd_compressed_task(t, x_e))"],
          raises={'WorkerError': None},
-         ghost={'kind:optimization_tasks': 'list[obj:AsyncTask]', 'nullable': [],
+         axioms=[("same-contents-same-membership", MEMBERS_TRANSFER.format(labels='model._point_labels'))],
+         ghost={'kind:optimization_tasks': 'list[obj:AsyncTask]', 'nullable': [], 'cumulative_posts': True,
                 'returns': dict(TASKS='optimization_tasks'), 'return_kinds': dict(TASKS='list[obj:AsyncTask]'),
                 'xensures': {'WorkerError': [("state-given-is-not-altered", "unchanged(model, model.clusters)")]}},
          ensures=["fresh(result)", "fresh(result.clusters)", "len(result.clusters) == len(model.clusters)",
@@ -135,10 +174,26 @@ contract(GL + 'optimize_markov_random_fields', props=['C14', 'C20', 'C13', 'C12'
                    "same(result.clusters[k].stacked_data_mean, model.clusters[k].stacked_data_mean))"),
                   "same(result._point_labels, model._point_labels) and same(result.arguments, model.arguments)",
                   ("state-given-is-not-altered", "unchanged(model, model.clusters, stacked_training_data)"),
+                  ("tasks-sized-NW", "forall(0, len(TASKS), lambda k: TASKS[k].a2 * TASKS[k].a3 == stacked_training_data.shape[1])"),
+                  ("precisions-are-spd", "forall(0, len(model.clusters), lambda k: is_spd(result.clusters[k].train_inverse) and "
+                   "not isnone(result.clusters[k].computed_covariance))"),
+                  ("precisions-are-spd-and-sized-NW", "forall(0, len(model.clusters), lambda k: is_spd(result.clusters[k].train_inverse) and "
+                   "not isnone(result.clusters[k].computed_covariance) and not isnone(result.clusters[k].train_inverse) and "
+                   "result.clusters[k].train_inverse.shape[0] == stacked_training_data.shape[1] and "
+                   "result.clusters[k].train_inverse.shape[1] == stacked_training_data.shape[1])"),
+                  ("membership-carried-over", "forall(0, len(model.clusters), lambda k: eqcontent(result.clusters[k]._member_points, model.clusters[k]._member_points))"),
+                  ("wf:membership-1", "forall(0, len(model.clusters), lambda k: members_ok(result.clusters[k]._member_points, model._point_labels, k))"),
+                  ("wf:membership", "membership_ok(result)"),
+                  ("wf:distinct", "distinct_clusters(result)"),
+                  ("result-is-well-formed", "wf(result)"),
                   ("def:typestate", "result._phase == 3")],
          loops={1: dict(inv=["len(optimization_tasks) == len(model.clusters)", "fresh(optimization_tasks)",
                              "forall(0, cluster_id, lambda k: fresh(optimization_tasks[k]) and optimization_tasks[k].fn_is_admm and "
                              "same(optimization_tasks[k].a0, model.clusters[k].empirical_covariance) and "
                              "optimization_tasks[k].a1 == model.arguments.sparsity_weight and optimization_tasks[k].a2 == model.arguments.window_size and "
-                             "optimization_tasks[k].a3 == num_time_series and optimization_tasks[k].rho == 1 and same(optimization_tasks[k].pool, pool))"],
+                             "optimization_tasks[k].a3 == num_time_series and optimization_tasks[k].rho == 1 and same(optimization_tasks[k].pool, pool))",
+                             "num_time_series * model.arguments.window_size == stacked_training_data.shape[1] and num_time_series >= 1"],
+                        lemmas_init=["num_time_series == sensors(stacked_training_data, model.arguments.window_size)",
+                                     "num_time_series * model.arguments.window_size == stacked_training_data.shape[1]"],
+                        lemmas_exit=["forall(0, len(model.clusters), lambda k: optimization_tasks[k].a2 * optimization_tasks[k].a3 == stacked_training_data.shape[1])"],
                         modifies=['optimization_tasks'])})
